@@ -363,7 +363,7 @@ Qed.
 
 (* the restriction on abbreviated names is needed: `%d%bch%Y` prints 16 March 2021 as "16March2021",
    strptime's %b consumes the full name "March", the literal "ch" then meets "2021", the reader gives
-   up and no default reader takes the text (finding F-C14-N1; every other month is read) *)
+   up and no default reader takes the text (finding F222; every other month is read) *)
 Theorem abbreviation_before_letters_refuted : exists raw y m d w,
   has_dir 89 (lex_fmt raw) = true /\ has_mon (lex_fmt raw) = true /\ has_dir 100 (lex_fmt raw) = true /\
   valid_ymd y m d /\ 1400 <= y <= 9999 /\
